@@ -32,6 +32,7 @@ func runC06(c *Check) {
 	c06NotBypassed(c, P, r)
 	// the subscriber decorator the Router puts in front of every handler takes part in the shutdown: its Close must end its pumps
 	c07Decorator(c, P+".S")
+	c10Lifecycle(c, P+".S", r)
 	c02Dispatch(c, P, r.RouterRoles)
 }
 
